@@ -36,6 +36,8 @@ type Ctx struct {
 	start time.Time
 	walkCache []*walkInfo
 	parseCache []*parseSite
+	nilSafeMemo map[string]bool
+	abw map[fieldKey]bool
 }
 
 type Floor struct {
